@@ -166,13 +166,51 @@ def fw(gens, tags, mech=None, **kw):
     return d
 
 
+def c01_run(gens, tags, mech):
+    """C01 = the framework cases plus: every machine of the adversarial validation stream (C12 generator) that
+    the implementation accepts is driven through a scripted history by the harness; a panic or hang there is a
+    totality violation of a framework 'created from machines that pass validation'."""
+    def run(pid, tier, seed, replay, ctx):
+        res = run_fw(pid, tier, seed, replay, ctx, gens, tags, mech)
+        if replay:
+            return res
+        sh = ctx["sh"]
+        n = pick(tier, 2500, 60000)
+        rc, text = sh([ctx["HBIN"], "val-gen", "--seed", str(seed), "--cases", str(n)], timeout=7200)
+        if rc != 0:
+            res["model_disagreements"].append(f"harness val-gen failed: {text[-300:]}")
+            return res
+        rc, out = sh([ctx["DBIN"], "val", "c12"], input_bytes=text.encode(), timeout=7200)
+        if rc != 0:
+            res["model_disagreements"].append(f"driver val c12 failed: {out[-300:]}")
+            return res
+        blocks = None
+        ran = text.count("\no run ")
+        for line in out.split("\n"):
+            ws = line.split()
+            if len(ws) > 3 and ws[0] == "mon" and ws[1] == pid and ws[2] == "FAIL":
+                if blocks is None:
+                    blocks = split_cases(text)
+                msg = " ".join(ws[4:])
+                key = f"{pid}:{msg}"
+                if key not in {k for k, _ in res["monitor_failures"]}:
+                    res["monitor_failures"].append((key, f"monitor {pid} failed on the implementation: {msg}\n" + blocks.get(ws[3], "")))
+        res["evaluations"] += ran
+        res["traces_validated_against_impl"] += ran
+        res.setdefault("extra", {})["accepted_adversarial_machines_run"] = ran
+        res["rule"] += "; plus the accepted machines of the adversarial validation stream (val-gen), each run through a scripted history"
+        return res
+    d = {"run": run, "files": FW_FILES}
+    return d
+
+
 PROPS = {
     "C05": fw([("general", 1500, 40000), ("exh:2:677:1", 2000, 1400000), ("exh:3:9497:97", 2000, 200000)], ALL_FW_TAGS,
               assumptions=["the correspondence samples histories; the bounded-exhaustive family of the property's quantifier (8 machine sets of 1-3 small machines, full event alphabet "
                            "with known/unknown ids, 4 clock patterns incl. backwards, 6^3 scripted draw words around the dyadic thresholds) is enumerated completely at depth 2 in the thorough "
                            "tier and strided at depth 3; quick tier strides both"]),
-    "C01": fw([("general", 2500, 60000), ("czcycle", 1500, 40000), ("extsample", 600, 20000)], {"res", "len", "L"}, mech=["LR", "CZ", "SIG", "END", "batch"],
-              assumptions=["u64 packet counters are modelled as unbounded naturals (overflow needs 2^64 reported events)",
+    "C01": dict(c01_run([("general", 2500, 60000), ("czcycle", 1500, 40000), ("extsample", 600, 20000)], {"res", "len", "L"}, ["LR", "CZ", "SIG", "END", "batch"]),
+              assumptions=FW_ASSUMPTIONS + ["u64 packet counters are modelled as unbounded naturals (overflow needs 2^64 reported events)",
                            "machines have the shape of the Rust types (13 transition slots); proved for everything the bincode decoder accepts (C11)"]),
     "C02": fw([("general", 2500, 40000), ("c02frac", 600, 10000)], {"A", "RP", "G", "res", "len"}, mech=["aP"],
               assumptions=["packet counts below 2^53 (u64 -> f64 conversion exact); u64 counter overflow needs 2^64 events and is not modelled"]),
